@@ -7,4 +7,4 @@ git apply "$p" || git apply -3 "$p" || { echo "PATCH DOES NOT APPLY"; git checko
 for id in "$@"; do
   (cd /verif && ./check $id 2>&1 | grep -E "VIOLATION|^OK|KNOWN|MACHINERY|^  " | head -3)
 done
-git checkout -- . ; git status --short | head -3
+git reset -q --hard HEAD ; git status --short | head -3
